@@ -27,6 +27,9 @@ func Callees() []func(next func()) {
 		g.CallsPlain,
 		GenericTwice[int],
 		PlainTwice,
+		Юникод_функция_с_длинным_именем,
+		Тип{}.Метод,
+		GenericÜñï[string],
 	}
 }
 
@@ -101,3 +104,24 @@ func GenericTwice[T any](next func()) { Generic[T](func() { Generic[T](next) }) 
 
 //go:noinline
 func PlainTwice(next func()) { Plain(func() { Other(next) }) }
+
+// Inlinable is small enough to be inlined into a caller in another package:
+// its frame then has no function of its own (runtime.Frame.Func == nil).
+func Inlinable(next func()) { next() }
+
+// InlinableGeneric likewise, with a type parameter.
+func InlinableGeneric[T any](v T, next func(T)) { next(v) }
+
+// Identifiers outside ASCII (multi-byte in the encoded name: a truncation
+// can fall inside a character).
+
+//go:noinline
+func Юникод_функция_с_длинным_именем(next func()) { next() }
+
+type Тип struct{}
+
+//go:noinline
+func (Тип) Метод(next func()) { next() }
+
+//go:noinline
+func GenericÜñï[T any](next func()) { next() }
